@@ -293,6 +293,13 @@ def run_group(case):
                     break
             if [obs(m) for m in members] != before_members:
                 viol.append(("C15:group:replace-modified-original", case, {}))
+            # the copy is a grouped record of its own: assigning any field of the copy reaches no member of the original
+            later = {"string": "assigned-later", "varint": 31337, "datetime": lit.ev("dt(2031,2,3,tz=UTC)")}
+            for t2, n2 in order:
+                setattr(g2, n2, later[t2])
+            if [obs(m) for m in members] != before_members:
+                viol.append(("C15:group:replace-copy-shares-members-with-original", case, {"replaced": n}))
+                return {"ev": 1, "h": h, "nt": True, "out": "group:bad", "viol": viol}
             # routed assignment: the first member that has the field receives the value
             setattr(g, n, newv)
             if obs(getattr(owner[n], n)) != obs(getattr(g, n)) or obs(getattr(g, n)) != obs(recs.descriptor("x/x", [[t, "v"]])(v=newv).v):
@@ -329,6 +336,14 @@ def run_proj(case):
                 if obs(got) != obs(type(getattr(rec, k))(exp) if (k in kw and getattr(rec, k) is not None and not isinstance(exp, type(getattr(rec, k)))) else exp) and k != "_generated":
                     viol.append(("C15:proj:replace-field:%s" % ("named" if k in kw else "unnamed"), case, {"field": k, "got": obs(got)}))
                     break
+            # the copy is a record of its own: assigning to it afterwards reaches nothing of the original (and the other way round)
+            if "zz" not in names:
+                for k, v2 in (("a", "assigned-later"), ("n", 31337)):
+                    setattr(out, k, v2)
+                if obs(rec) != before:
+                    viol.append(("C15:proj:replace-copy-shares-state-with-original", case, {"named": names}))
+                    for k in ("a", "n"):
+                        setattr(rec, k, lit.ev(dict(zip([f[1] for f in case["rec"]["fields"]], case["rec"]["values"]))[k]))
     except ValueError:
         if "zz" not in names:
             viol.append(("C15:proj:replace-raises", case, {}))
